@@ -18,7 +18,9 @@ CONSTANTS MaxSteps,     \* commands per history
           Depth,        \* max. unanswered commands
           Level,        \* "core" | "quick" | "full": which parameter shapes are in the alphabet;
                         \* "multi": sessions with several live streams (open, stream, stream, then window changes /
-                        \*          stops / searches / lookups on every handle) - ids are renewed on older streams
+                        \*          stops / searches / lookups on every handle) - ids are renewed on older streams;
+                        \* "onepass": every collect mode (all / none / one_pass_streams) x pause / resume x streams and
+                        \*          queries with and without the one_pass flag - streams created after messages were released
           RecordHist    \* TRUE only in the emission configs (the history multiplies the state space)
 
 VARIABLES file, plug, res, hs, pend, nsent, parsing, hist
@@ -27,7 +29,7 @@ vars == <<file, plug, res, hs, pend, nsent, parsing, hist>>
 
 Pick(core, quick, full) == IF Level = "core" THEN core ELSE IF Level = "quick" THEN core \cup quick ELSE core \cup quick \cup full
 
-AOpen    == Pick({"ok", "ok_onepass", "badjson"}, {"ok_nocollect", "missingfile", "ok_plugins", "zip_glob_none"},
+AOpen    == Pick({"ok", "ok_onepass", "badjson"}, {"ok_nocollect", "missingfile", "ok_plugins", "zip_glob_none", "ok_plugins_dup"},
                  ((OpenOkArgs \ HugeOpenArgs) \cup OpenArchiveEmptyArgs \cup OpenBadArgs))
 APlain   == Pick({""}, {}, {"junk"})
 AStream  == Pick({"ok_filt", "ok_onepass", "badjson"}, {"ok", "badwindow"}, (StreamOkArgs \cup StreamBadArgs))
@@ -35,7 +37,7 @@ AQuery   == Pick({"ok_filt"}, {"badjson", "ok_onepass"}, (StreamOkArgs \cup Stre
 AChange  == Pick({"ok", "noarg"}, {"nocomma", "ok_garbage"}, (ChangeOkArgs \cup ChangeBadArgs))
 ABsearch == Pick({"time", "noarg"}, {"index_found", "index_missing", "badkey"}, BsearchArgs)
 ASearch  == Pick({"ok", "noarg"}, {"badjson", "startwrongtype"}, (SearchOkArgs \cup SearchBadArgs))
-APlugin  == Pick({"noplugin"}, {"badjson", "ft_cmd"}, PluginArgs)
+APlugin  == Pick({"noplugin"}, {"badjson", "ft_cmd", "rw_cmd"}, PluginArgs)
 AFs      == Pick({"stat_ok", "fakezip_readdir"}, {"badjson", "unknowncmd", "arch_nonexist", "zip_readdir"},
                  (FsOkArgs \cup FsFakeArgs \cup FsBadArgs))
 AUnknown == Pick({"frobnicate"}, {"empty"}, (UnknownArgs \ {"sentinel"}))
@@ -59,6 +61,12 @@ MultiAlphabet ==
   \cup {Cmd("stream_search", "ok", t) : t \in HandleTargets} \cup {Cmd("stream_binary_search", "time", t) : t \in HandleTargets}
 \* shape of a "multi" history: open, two streams, then no further open
 MultiShape(c) == /\ (nsent = 0 => c.verb = "open") /\ (nsent \in {1, 2} => c.verb = "stream") /\ (nsent > 2 => c.verb # "open")
+OnePassAlphabet ==
+       {Cmd("open", a, "") : a \in {"ok", "ok_nocollect", "ok_onepass"}}
+  \cup {Cmd(v, "", "") : v \in {"pause", "resume"}}
+  \cup {Cmd(v, a, "") : v \in {"stream", "query"}, a \in {"ok_onepass", "ok_filt"}}
+  \cup {Cmd("stop", "", t) : t \in HandleTargets}
+OnePassShape(c) == (nsent = 0) = (c.verb = "open")
 FullAlphabet ==
        {Cmd("open", a, "") : a \in AOpen}
   \cup {Cmd(v, a, "") : v \in {"close", "pause", "resume"}, a \in APlain}
@@ -70,7 +78,8 @@ FullAlphabet ==
   \cup {Cmd("plugin_cmd", a, "") : a \in APlugin}
   \cup {Cmd("fs", a, "") : a \in AFs}
   \cup {Cmd("unknown", a, "") : a \in AUnknown}
-Alphabet == IF Level = "multi" THEN {c \in MultiAlphabet : MultiShape(c)} ELSE FullAlphabet
+Alphabet == IF Level = "multi" THEN {c \in MultiAlphabet : MultiShape(c)}
+            ELSE IF Level = "onepass" THEN {c \in OnePassAlphabet : OnePassShape(c)} ELSE FullAlphabet
 
 Init == /\ file = "none" /\ plug = FALSE /\ res = FALSE /\ hs = <<>> /\ pend = <<>> /\ nsent = 0 /\ parsing = "none" /\ hist = <<>>
 
